@@ -1109,6 +1109,6 @@ def run(rec, only=None):
                        ("asgi_slow_client", asgi_slow_client_cases()), ("asgi_endless", asgi_endless_cases())):
         core.drive_cases(rec, sub, cases, oracle_asgi)
         rec.exhaustive[sub] = True
-    core.drive_hypothesis(rec, "asgi", asgi_case(), oracle_asgi, 1500 if quick else 40000)
-    core.drive_hypothesis(rec, "wsgi_sse_long", long_schedule(), oracle_wsgi_sse, 150 if quick else 3000, seed_offset=1, shrink=False)
+    core.drive_hypothesis(rec, "asgi", asgi_case(), oracle_asgi, 1500 if quick else 500000)
+    core.drive_hypothesis(rec, "wsgi_sse_long", long_schedule(), oracle_wsgi_sse, 150 if quick else 6400, seed_offset=1, shrink=False)
     rec.exhaustive["asgi"] = rec.exhaustive["wsgi_sse_long"] = False
